@@ -57,6 +57,32 @@ pub fn binop<K1: Kind, K2: Kind>(op: Op) {
     core::mem::forget(r);
 }
 
+fn small_f(v: V) -> bool {
+    match v {
+        // doubles with at most 12 significant bits and a small exponent: the multiplier and
+        // divider circuits collapse, every special value (0, -0, inf, NaN, subnormal min) kept
+        V::F(f) => {
+            let bits = f.to_bits();
+            let mant = bits & 0x000f_ffff_ffff_ffff;
+            let exp = (bits >> 52) & 0x7ff;
+            (mant & 0x0000_00ff_ffff_ffff) == 0 && (exp == 0 || exp == 0x7ff || (exp >= 1023 - 40 && exp <= 1023 + 40))
+        }
+        _ => true,
+    }
+}
+
+/// op on (K1, K2) with integers below 2^bits in magnitude (plus the boundary set) and doubles
+/// of short mantissa: the quick stand-in for the full-width query of the thorough tier
+pub fn binop_bounded<K1: Kind, K2: Kind>(op: Op, bits: u32) {
+    let a = K1::sym();
+    let b = K2::sym();
+    assume(small_or_boundary(a, bits) && small_or_boundary(b, bits));
+    assume(small_f(a) && small_f(b));
+    let r = apply(op, a.cel(), b.cel());
+    check(&r, spec::arith(op, a, b));
+    core::mem::forget(r);
+}
+
 /// `/` and `%` full width: error *predicate* only (no divider equivalence in the query).
 pub fn divrem_pred<K1: Kind, K2: Kind>(op: Op) {
     let a = K1::sym();
